@@ -1,6 +1,7 @@
 //! dsched: deterministic exhaustive scheduler / enumerator for the deltio properties.
 mod engine;
 mod explore;
+mod litmus;
 mod model;
 mod props;
 mod report;
